@@ -264,14 +264,15 @@ PROPS = {
         "lean": ["OxiModel.Props.C18"],
         "streams": [{"name": "corr-geom", "quick": 60, "thorough": 600}],
         "oracles": [],
-        "claim": "Lean 4 theorems for all w>=1, h, bpp: raw_data_size equals the total length of the specification's scan lines (both layouts, "
-                 "empty passes omitted), closed forms of the seven pass sizes, pass areas partition the image; the scan-line iterator, "
-                 "raw_data_size, interlace_image and deinterlace_image are modelled literally and compared with the code on every (w,h) up to "
-                 "24x24 (thorough 72x72) for the legal type/depth pairs, on position-labelled images, in both directions, plus malformed lengths; "
-                 "the stream also compares the code directly with the harness's own specification-derived geometry.",
-        "note": "Proved so far: sizes (raw_data_size = spec), pass-size closed forms, area partition. The iterator = spec-lines theorem and the pixel-placement/"
-                "round-trip theorems for interlace/deinterlace are stated as growth items; until then those clauses rest on the exhaustive-up-to-bound "
-                "correspondence and oracle streams. Trusted: Lean kernel, correspondence tie (tested), harness reference geometry.",
+        "claim": "Lean 4 theorems for ALL w>=1, h>=1, bpp>=1 (no bound): the scan-line iterator run over data of the header-implied size yields exactly the specification's rows "
+                 "(pass by pass: Spec.passDims rows of ceil(width*bpp/8) bytes, pass number, pixel count, empty passes omitted) in both layouts with or without filter bytes - by an invariant "
+                 "on the iterator state, the small-image skip conditions shown equal to 'pass empty', and induction on the rows left in a pass; raw_data_size equals the total length of those rows; "
+                 "closed forms of the seven pass sizes; the pass areas partition the image. The iterator, raw_data_size, interlace_image and deinterlace_image are modelled literally and compared "
+                 "with the code on every (w,h) up to 24x24 (thorough 72x72) for the legal type/depth pairs, on position-labelled images, in both directions, plus malformed lengths; "
+                 "the stream also compares the code directly with the harness's own specification-derived geometry and pixel placement.",
+        "note": "Proved: iterator = specification rows, sizes, closed forms, area partition. The pixel-placement and round-trip theorems for interlace_image/deinterlace_image (bit-level scatter/gather) "
+                "are growth items; until then those two clauses rest on the exhaustive-up-to-bound correspondence and the direct comparison with specification-derived placement in the same stream. "
+                "Trusted: Lean kernel, correspondence tie (tested), harness reference geometry.",
         "technique": "Lean 4 proof (omega over unbounded sizes) + exhaustive-to-bound model/implementation correspondence",
         "rule": "all (w,h) in 1..24 (thorough 1..72) x legal colour-type/depth pairs x interlaced/not x with/without filter byte, plus sparse large sizes and "
                 "malformed data lengths; interlace/deinterlace on position-labelled images for all (w,h) in 1..12 (thorough 1..40) plus random sizes up to 72; "
